@@ -86,3 +86,33 @@ Proof.
   destruct o; cbn; try reflexivity.
   destruct (i - 1 <=? 0); reflexivity.
 Qed.
+
+(* ---- transfer: the model's timing theorem, stated about the functions translated from the current source -------------- *)
+From PV Require Import Proofs.SoftwareProofs.
+
+(* one tick of the translated Software.apply_timestep on (true health, fix countdown, fixes completed) *)
+Definition src_htick (x : Z * Z * Z) : Z * Z * Z :=
+  let '(h, c, n) := x in let '(_, (c', n', h')) := Software_apply_timestep h c n in (h', c', n').
+Fixpoint src_hticks (k : nat) (x : Z * Z * Z) : Z * Z * Z := match k with O => x | S j => src_hticks j (src_htick x) end.
+
+Lemma src_hticks_model : forall k h n, exists n',
+  src_hticks k (health_to_Z (ha h), fcd h, n) = (health_to_Z (ha (h_ticks k h)), fcd (h_ticks k h), n').
+Proof.
+  induction k as [|k IH]; intros h n; cbn [src_hticks h_ticks]; [exists n; reflexivity|].
+  unfold src_htick. rewrite gen_software_tick. apply IH.
+Qed.
+
+(* a fix requested through the translated Software.fix on compromised or good software is accepted, the translated
+   apply_timestep then shows FIXING (2) for max(fixing_duration, 1) - 1 further ticks and GOOD (1) at tick max(fixing_duration, 1) *)
+Theorem source_fix_time : forall h n0, ha h = COMPROMISED \/ ha h = GOOD ->
+  let '(accepted, (c0, h0)) := Software_fix (health_to_Z (ha h)) (fdur h) (fcd h) in
+  let n := Z.to_nat (Z.max (fdur h) 1) in
+  accepted = true /\
+  (forall k, (k < n)%nat -> fst (fst (src_hticks k (h0, c0, n0))) = 2) /\
+  fst (fst (src_hticks n (h0, c0, n0))) = 1.
+Proof.
+  intros h n0 Hh. rewrite gen_fix. destruct (fix_time h Hh) as (A & B & C).
+  set (hf := fst (h_fix h)) in *. cbn zeta. split; [exact A|]. split.
+  - intros k Hk. destruct (src_hticks_model k hf n0) as [n' E]. rewrite E. cbn [fst]. rewrite (B k Hk). reflexivity.
+  - destruct (src_hticks_model (Z.to_nat (Z.max (fdur h) 1)) hf n0) as [n' E]. rewrite E. cbn [fst]. rewrite C. reflexivity.
+Qed.
